@@ -163,6 +163,29 @@ def manual_trigger_table():
     return fails, n
 
 
+def normalization_small_norms():
+    """Normalization on rows whose norm is small but not below epsilon: the result still has norm |scale| (the documented
+    epsilon is a lower clamp of the norm, it must not leak into ordinary rows), zero rows stay zero"""
+    fails, n = [], 0
+    for dtype in (torch.float32, torch.float64):
+        for order, scale, eps in ((2, 1.0, 1e-12), (1, -2.0, 1e-12), (2, 3.0, 1e-9)):
+            n += 1
+            net = Net()
+            net.weight = torch.tensor([[3e-10, -4e-10], [0.0, 0.0], [6e-7, 8e-7], [0.5, 0.25]], dtype=dtype)
+            w0 = net.weight.clone()
+            nz = Normalization(net, "weight", order, scale, -1, epsilon=eps)
+            nz.register()
+            net(1)
+            nrm0 = torch.linalg.vector_norm(w0.double(), ord=order, dim=-1)
+            nrm = torch.linalg.vector_norm(net.weight.double(), ord=order, dim=-1)
+            exp = torch.where(nrm0 >= eps, torch.full_like(nrm0, abs(scale)), abs(scale) * nrm0 / eps)  # below epsilon: v / eps
+            if not torch.allclose(nrm, exp, atol=1e-5 * abs(scale), rtol=1e-5):
+                fails.append({"what": "C16/normalization_small_norms", "input": dict(order=order, scale=scale, epsilon=eps, dtype=str(dtype), row_norms=nrm0.tolist()), "expected": exp.tolist(), "actual": nrm.tolist()})
+                break
+            nz.deregister()
+    return fails, n
+
+
 def sweep(tier="quick", seed=0, unsupported=()):
     failures, cases = [], 0
     for s in range(150 if tier == "quick" else 5000):
@@ -174,7 +197,7 @@ def sweep(tier="quick", seed=0, unsupported=()):
     f = state_hooks(seed)
     if f is not None:
         failures.append(f)
-    for fn in (clamping_bounds, manual_trigger_table):
+    for fn in (clamping_bounds, manual_trigger_table, normalization_small_norms):
         fs, k = fn()
         cases += k
         failures.extend(fs)
@@ -193,6 +216,9 @@ def replay_native(rp):
     what = rp.get("what", "")
     if what == "C16/clamping_bounds":
         fs, _ = clamping_bounds()
+        return {"reproduced": bool(fs), "failure": fs[0] if fs else None}
+    if what == "C16/normalization_small_norms":
+        fs, _ = normalization_small_norms()
         return {"reproduced": bool(fs), "failure": fs[0] if fs else None}
     if what in ("C16/manual_trigger_truth_table", "C16/module_call_runs_hook_iff_armed"):
         fs, _ = manual_trigger_table()
